@@ -201,6 +201,50 @@ def check_structure(kind):
     return None
 
 
+SEM_MODULES = [
+    # (module path, rule named like one of its functions, pattern of the rule, inputs): the usual layout is a semantics module inside a package
+    ('email.utils', 'unquote', '"[a-z]*"', ['"abc"', '""']),
+    ('xml.sax.saxutils', 'escape', '[a-z&<]+', ['a&b', 'x<y']),
+    ('urllib.parse', 'quote', '[a-z ]+', ['a b', 'ab']),
+    ('html', 'escape', '[a-z&<]+', ['a&b']),                 # a top-level package
+    ('json', 'dumps', '[a-z]+', ['ab']),
+    ('os.path', 'basename', '[a-z/]+', ['a/b/c']),
+    ('textwrap', 'dedent', '[ a-z]+', ['  ab']),             # a top-level module
+]
+
+
+class SemObj14:
+    def start(self, ast):
+        return ['S', ast]
+
+    def item(self, ast):
+        return ast.upper()
+
+
+def check_semantics_pickle(modpath, rule, pat, inputs, how):
+    """a model compiled with a semantics object / module, pickled and loaded back, parses to the same results"""
+    import importlib
+    import tatsu
+    sem = importlib.import_module(modpath) if how == 'module' else SemObj14()
+    rname = rule if how == 'module' else 'item'
+    g = f"start: {{{rname}}}+ $ ;\n\n{rname}: ?'{pat}' ;\n"
+    try:
+        m = tatsu.compile(g, name='S14', semantics=sem)
+        want = [m.parse(t) for t in inputs]
+    except Exception as e:
+        return None, {'skip': f'{type(e).__name__}: {e}'[:100]}
+    try:
+        m2 = pickle.loads(pickle.dumps(m))
+        got = [m2.parse(t) for t in inputs]
+    except Exception as e:
+        return dict(bucket=f'pickle-semantics:{how}:raises:{type(e).__name__}', oracle='a pickled model loads back and parses', grammar=g, semantics=modpath if how == 'module' else 'object',
+                    observed=str(e)[:200]), {}
+    if got != want:
+        return dict(bucket=f'pickle-semantics:{how}:ast', oracle='the reloaded model returns equal ASTs (its semantic actions are the same)', grammar=g,
+                    semantics=modpath if how == 'module' else 'object', expected=repr(want)[:200], observed=repr(got)[:200]), {}
+    return None, {}
+
+
 def make_case(rnd):
     gcfg = gen.GenCfg(cut=True, maxrules=rnd.choice([1, 2, 3]))
     rules = gen.gen_rules(rnd, gcfg)
@@ -248,6 +292,16 @@ def run_shard(sh, kind, n):
             sh.case(('structure', k), k != 'plain', ['structure:' + k], sample=dict(structure=k))
             if d:
                 sh.fail(d['bucket'], dict(kind='structure', structure=k), d)
+        for i, (modpath, rule, pat, inputs) in enumerate(SEM_MODULES):
+            for how in ('module', 'object'):
+                d, info = check_semantics_pickle(modpath, rule, pat, inputs, how)
+                if info.get('skip'):
+                    sh.note('skipped: ' + info['skip'])
+                    continue
+                sh.case(('pickle-semantics', modpath, how), True, ['pickle of a model with semantics', 'semantics:' + how + (':in-package' if '.' in modpath and how == 'module' else '')],
+                        sample=dict(semantics=modpath if how == 'module' else 'object', rule=rule, inputs=inputs))
+                if d:
+                    sh.fail(d['bucket'], dict(kind='pickle-semantics', index=i, how=how), d)
         return
 
     def body(rnd):
@@ -280,6 +334,9 @@ def run_shard(sh, kind, n):
 def replay(case):
     if case.get('kind') == 'structure':
         return check_structure(case['structure'])
+    if case.get('kind') == 'pickle-semantics':
+        d, _ = check_semantics_pickle(*SEM_MODULES[case['index']], case['how'])
+        return d
     rd = c13._norm_rd(case['rd'])
     gtext = grammar_text(rd, [tuple(x) for x in case.get('directives', [])], case.get('keywords', []))
     d, _ = check(gtext, case['inputs'], only=case.get('route'))
@@ -287,7 +344,7 @@ def replay(case):
 
 
 def shrink_candidates(case):
-    if case.get('kind') == 'structure':
+    if case.get('kind') in ('structure', 'pickle-semantics'):
         return
     for c in c13.shrink_candidates(dict(case, route='compile')):
         yield dict(c, route=case.get('route'), kind='grammar')
